@@ -28,6 +28,69 @@ ASSUMPTIONS = [
 HP, VP = "auth:Auth.hash_password", "auth:Auth.verify_password"
 
 
+def _scrypt_args(call):
+    """(salt, length, n, r, p) argument expressions of a Scrypt(...) call, positional or by the library's keyword names"""
+    names = ("salt", "length", "n", "r", "p")
+    out = list(call.args[:5])
+    kw = {k.arg: k.value for k in call.keywords if k.arg is not None}
+    for nm in names[len(out):]:
+        out.append(kw.get(nm))
+    return out
+
+
+def _field_names(vp, pv):
+    """{variable: field index} for the variables that hold one field of the split hash string: `x = parts[k]` or the k-th target
+    of `a, b, c, d = parts`; plus the arity of such an unpacking (None when the fields are indexed)"""
+    out = {}
+    arity = None
+    for n in walk_own(vp.node):
+        if isinstance(n, ast.Assign) and len(n.targets) == 1:
+            t, v = n.targets[0], n.value
+            if isinstance(t, ast.Name) and isinstance(v, ast.Subscript) and norm(v.value) == pv and isinstance(v.slice, ast.Constant) and isinstance(v.slice.value, int):
+                out[t.id] = v.slice.value
+            if isinstance(t, ast.Tuple) and isinstance(v, ast.Name) and v.id == pv and all(isinstance(e, ast.Name) for e in t.elts):
+                arity = len(t.elts)
+                for k, e in enumerate(t.elts):
+                    out[e.id] = k
+    return out, arity
+
+
+def _field_text(expr, fields, pv):
+    """`parts[k]` for an expression that is field k (a subscript or a variable bound to it), else its text"""
+    if isinstance(expr, ast.Name) and expr.id in fields:
+        return "%s[%d]" % (pv, fields[expr.id])
+    return norm(expr)
+
+
+def _flat_bytes(fi, expr, at):
+    """a bytes-building expression as the list of its concatenated parts (constants merged): a + b + c and sep.join([a, b, c])
+    give the same list; names are read through their definitions (also call-valued ones from the encoding library)"""
+    from .common import sym_expr
+    e = sym_expr(fi, expr, at, allow_calls=("base64.b64encode",))
+
+    def flat(x):
+        if isinstance(x, ast.BinOp) and isinstance(x.op, ast.Add):
+            return flat(x.left) + flat(x.right)
+        if isinstance(x, ast.Call) and isinstance(x.func, ast.Attribute) and x.func.attr == "join" and isinstance(x.func.value, ast.Constant) \
+                and isinstance(x.func.value.value, bytes) and len(x.args) == 1 and isinstance(x.args[0], (ast.List, ast.Tuple)):
+            out = []
+            for i, el in enumerate(x.args[0].elts):
+                if i:
+                    out.append(x.func.value.value)
+                out += flat(el)
+            return out
+        if isinstance(x, ast.Constant) and isinstance(x.value, bytes):
+            return [x.value]
+        return [norm(x)]
+    parts = []
+    for p_ in flat(e):
+        if isinstance(p_, bytes) and parts and isinstance(parts[-1], bytes):
+            parts[-1] += p_
+        else:
+            parts.append(p_)
+    return parts
+
+
 def r1(ctx):
     vp = ctx.fn(VP)
     cfg = cfg_of(vp)
@@ -37,8 +100,14 @@ def r1(ctx):
         return
     pv = norm(parts_def[0].targets[0])
     subs = [n for n in walk_own(vp.node) if isinstance(n, ast.Subscript) and norm(n.value) == pv and isinstance(n.slice, ast.Constant)]
-    ctx.expect("C19.R1", "constant-index subscripts of the split result", len(subs), 4)
-    maxidx = max(n.slice.value for n in subs)
+    fields, arity = _field_names(vp, pv)
+    if arity is not None and not subs:
+        # the fields are taken by unpacking into exactly `arity` names: a wrong field count raises ValueError by itself
+        ctx.holds("C19.R1", vp, "the %d fields are unpacked from the split result (a wrong count raises ValueError, never IndexError)" % arity)
+        maxidx = arity - 1
+    else:
+        ctx.expect("C19.R1", "constant-index subscripts of the split result", len(subs), 4)
+        maxidx = max(n.slice.value for n in subs)
     for s in subs:
         if s.slice.value == 0:
             ctx.holds("C19.R1", vp, "%s[0] always exists (split returns at least one element)" % pv)
@@ -148,12 +217,26 @@ def r3(ctx):
     if ok:
         pa = [norm(a) for a in p[0].args]
         ua = [norm(e) for e in u[0].call._parent.targets[0].elts] if isinstance(u[0].call._parent, ast.Assign) and isinstance(u[0].call._parent.targets[0], ast.Tuple) else []
+        if not ua and isinstance(u[0].call._parent, ast.Assign) and isinstance(u[0].call._parent.targets[0], ast.Name):
+            # the tuple is held in a temporary first: x = struct.unpack(...); a, b, c = x
+            tmp = u[0].call._parent.targets[0].id
+            later = [n for n in walk_own(vp.node) if isinstance(n, ast.Assign) and isinstance(n.value, ast.Name) and n.value.id == tmp and isinstance(n.targets[0], ast.Tuple)]
+            if len(later) == 1:
+                ua = [norm(e) for e in later[0].targets[0].elts]
         ctx.check(pa == ["N", "r", "p", "Auth.SALT_LENGTH", "Auth.DIGEST_LENGTH"] and ua == ["N", "r", "p", "salt_length", "length"], "C19.R3", vp,
                   "parameters (N, r, p, salt length, digest length) in the same order", witness={"pack": pa, "unpack": ua})
     # header / separator / constants
-    hdr = [n for n in walk_own(hp.node) if isinstance(n, ast.Assign) and norm(n.targets[0]) == "header"]
-    okh = len(hdr) == 1 and norm(hdr[0].value) == "b'scrypt:1:' + base64.b64encode(params) + b':'"
-    ctx.check(okh, "C19.R3", hp, "header = b'scrypt:1:' + b64(params) + b':'", witness=[norm(h.value) for h in hdr])
+    hcfg = cfg_of(hp)
+    hrets = [n for n in walk_own(hp.node) if isinstance(n, ast.Return) and n.value is not None]
+    flat = None
+    if len(hrets) == 1:
+        rv = hrets[0].value
+        inner = rv.func.value if isinstance(rv, ast.Call) and isinstance(rv.func, ast.Attribute) and rv.func.attr == "decode" and [norm(a) for a in rv.args] == ["'utf-8'"] else None
+        if inner is not None:
+            flat = _flat_bytes(hp, inner, hcfg.node_of(hrets[0]))
+    want_flat = [b"scrypt:1:", "base64.b64encode(params)", b":", "base64.b64encode(salt + out)"]
+    okh = flat is not None and flat[:3] == want_flat[:3]
+    ctx.check(okh, "C19.R3", hp, "header = b'scrypt:1:' + b64(params) + b':'", witness=[repr(x) for x in (flat or [])])
     sp = [c for c in walk_own(vp.node) if isinstance(c, ast.Call) and norm(c.func).endswith(".split")]
     oks = len(sp) == 1 and norm(sp[0].args[0]) == "b':'"
     ctx.check(oks, "C19.R3", vp, "fields are split on b':' (the writer's separator)", witness=[norm(s) for s in sp])
@@ -161,19 +244,53 @@ def r3(ctx):
     import string
     alphabet = set((string.ascii_letters + string.digits + "+/=").encode())
     ctx.check(ord(":") not in alphabet, "C19.R3", vp, "the separator is outside the base64 alphabet")
-    chk = [n for n in walk_own(vp.node) if isinstance(n, ast.If) and "kind != b'scrypt'" in norm(n.test) and "version != b'1'" in norm(n.test) and any(isinstance(s, ast.Raise) for s in n.body)]
-    ctx.check(len(chk) >= 1 and isinstance(chk[0].test, ast.BoolOp) and isinstance(chk[0].test.op, ast.Or), "C19.R3", vp, "kind and version are compared with the writer's constants (either mismatch raises)",
-              witness=[norm(c.test) for c in chk])
-    asg = {norm(n.targets[0]): norm(n.value) for n in walk_own(vp.node) if isinstance(n, ast.Assign)}
-    ctx.check(asg.get("kind") == "parts[0]" and asg.get("version") == "parts[1]" and asg.get("params") == "base64.b64decode(parts[2])" and asg.get("data") == "base64.b64decode(parts[3])",
-              "C19.R3", vp, "field positions: kind, version, params, data", witness={k: asg.get(k) for k in ("kind", "version", "params", "data")})
+    # kind and version: a mismatch of either never reaches the key derivation (edge cut over the leaf comparisons with the
+    # writer's constants, whichever way the condition is composed)
+    vcfg = cfg_of(vp)
+    pv = norm(sp[0]._parent.targets[0]) if sp and isinstance(sp[0]._parent, ast.Assign) else "parts"
+    fields, _ar = _field_names(vp, pv)
+    mism = {}
+    seen = set()
+    for n in vcfg.nodes:
+        if n.kind == "test" and isinstance(n.ast, ast.Compare) and len(n.ast.ops) == 1 and isinstance(n.ast.ops[0], (ast.Eq, ast.NotEq)):
+            l, r_ = n.ast.left, n.ast.comparators[0]
+            for (a_, b_) in ((l, r_), (r_, l)):
+                if isinstance(b_, ast.Constant) and isinstance(b_.value, bytes):
+                    ft_ = _field_text(a_, fields, pv)
+                    if (ft_, b_.value) in (("%s[0]" % pv, b"scrypt"), ("%s[1]" % pv, b"1")):
+                        mism[n.id] = "F" if isinstance(n.ast.ops[0], ast.Eq) else "T"
+                        seen.add(ft_)
+    kv = [c for c in calls_named(vp, "verify") if norm(c.func) == "kdf.verify"]
+    okc = len(seen) == 2 and bool(kv)
+    if okc:
+        # from every mismatch outcome, kdf.verify (and any return) is unreachable: the only way on is a raise
+        for nid, lab in mism.items():
+            for (d, l_) in vcfg.succ[nid]:
+                if l_ == lab:
+                    reach = vcfg.reachable(d, skip_labels=("exc", "raise"))
+                    if vcfg.node_of(kv[0]).id in reach or any(isinstance(vcfg.nodes[x].ast, ast.Return) for x in reach):
+                        okc = False
+    ctx.check(okc, "C19.R3", vp, "kind and version are compared with the writer's constants (either mismatch raises)",
+              witness=sorted(norm(vcfg.nodes[k].ast) for k in mism))
+    asg = {norm(n.targets[0]): n.value for n in walk_own(vp.node) if isinstance(n, ast.Assign) and len(n.targets) == 1}
+    def _fld(name):
+        if name in fields:
+            return "%s[%d]" % (pv, fields[name])
+        v = asg.get(name)
+        if isinstance(v, ast.Call) and norm(v.func) == "base64.b64decode" and len(v.args) == 1:
+            return "base64.b64decode(%s)" % _field_text(v.args[0], fields, pv)
+        return norm(v) if v is not None else None
+    got = {k: _fld(k) for k in ("kind", "version", "params", "data")}
+    want_pos = {"kind": "%s[0]" % pv, "version": "%s[1]" % pv, "params": "base64.b64decode(%s[2])" % pv, "data": "base64.b64decode(%s[3])" % pv}
+    # (kind / version may also be compared in place without being named)
+    okp = got["params"] == want_pos["params"] and got["data"] == want_pos["data"] and len(seen) == 2
+    ctx.check(okp, "C19.R3", vp, "field positions: kind, version, params, data", witness=got)
+    asg = {k: norm(v) for k, v in asg.items()}
     # salt + out layout
-    ft = [n for n in walk_own(hp.node) if isinstance(n, ast.Assign) and norm(n.targets[0]) == "footer"]
-    ctx.check(len(ft) == 1 and norm(ft[0].value) == "base64.b64encode(salt + out)", "C19.R3", hp, "data = b64(salt + digest)", witness=[norm(f.value) for f in ft])
+    ctx.check(flat is not None and flat[3:] == want_flat[3:], "C19.R3", hp, "data = b64(salt + digest)", witness=[repr(x) for x in (flat or [])])
     ctx.check(asg.get("salt") == "data[:salt_length]" and asg.get("expected") == "data[salt_length:]", "C19.R3", vp, "salt = data[:salt_length], digest = data[salt_length:]",
               witness={k: asg.get(k) for k in ("salt", "expected")})
-    rets = [norm(n.value) for n in walk_own(hp.node) if isinstance(n, ast.Return)]
-    ctx.check(rets == ["(header + footer).decode('utf-8')"], "C19.R3", hp, "hash string = header + footer", witness=rets)
+    ctx.check(flat == want_flat, "C19.R3", hp, "hash string = header + footer", "decoded as utf-8", witness=[repr(x) for x in (flat or [])])
     ctx.check("password_hash.encode('utf-8')" in norm(sp[0].func) if sp else False, "C19.R3", vp, "the hash string is encoded with the writer's codec before splitting")
     # same pre-hash
     def prehash(fi):
@@ -182,8 +299,10 @@ def r3(ctx):
     ctx.check(a == b and len(a) == 3 and "SHA256" in a[0], "C19.R3", vp, "both sides pre-hash the password identically (SHA-256)", witness={"hash_password": a, "verify_password": b})
     # Scrypt argument order
     sh, sv = _scrypt(hp), _scrypt(vp)
-    ok = sh is not None and sv is not None and [norm(x) for x in sh.args] == ["salt", "Auth.DIGEST_LENGTH", "N", "r", "p"] and [norm(x) for x in sv.args] == ["salt", "length", "N", "r", "p"]
-    ctx.check(ok, "C19.R3", vp, "Scrypt(salt, length, N, r, p) on both sides", witness={"hash": [norm(x) for x in sh.args] if sh else None, "verify": [norm(x) for x in sv.args] if sv else None})
+    ah = [norm(x) if x is not None else None for x in _scrypt_args(sh)] if sh is not None else None
+    av = [norm(x) if x is not None else None for x in _scrypt_args(sv)] if sv is not None else None
+    ok = ah == ["salt", "Auth.DIGEST_LENGTH", "N", "r", "p"] and av == ["salt", "length", "N", "r", "p"]
+    ctx.check(ok, "C19.R3", vp, "Scrypt(salt, length, N, r, p) on both sides", witness={"hash": ah, "verify": av})
     der = calls_named(hp, "derive")
     ctx.check(len(der) == 1 and norm(der[0].args[0]) == "key_material" and isinstance(der[0]._parent, ast.Assign) and norm(der[0]._parent.targets[0]) == "out", "C19.R3", hp, "digest = kdf.derive(pre-hashed password)")
     # constants
@@ -205,7 +324,7 @@ def r4(ctx):
         return
     A = ctx.repo.cls("auth:Auth")
     sl = ctx.folder.class_attr(A, "SALT_LENGTH")
-    arg = sc.args[0] if sc.args else None
+    arg = _scrypt_args(sc)[0]
     wit = []
     ok = isinstance(arg, ast.Name)
     if ok:
@@ -251,23 +370,52 @@ def r6(ctx):
     sc = _scrypt(vp)
     if not ver or sc is None:
         return
-    guards = [n for n in walk_own(vp.node) if isinstance(n, ast.If) and any(isinstance(s, ast.Raise) for s in n.body) and ("length" in norm(n.test) and "expected" in norm(n.test))]
-    if not ctx.require("C19.R6", vp, "guard relating the embedded digest length to the embedded digest", len(guards), 1):
-        return
-    g = guards[0]
-    alts = [norm(v) for v in (g.test.values if isinstance(g.test, ast.BoolOp) and isinstance(g.test.op, ast.Or) else [g.test])]
-    nonempty = any(a in ("length < 1", "length <= 0", "length == 0", "not length", "len(expected) < 1", "len(expected) == 0", "not expected") for a in alts)
-    match = any(a in ("len(expected) != length", "length != len(expected)") for a in alts)
-    ctx.check(nonempty and match, "C19.R6", vp, "digest length >= 1 and equal to the length of the embedded digest, else ValueError",
-              "with digest length 0 the derived key and the (empty) expected digest are equal for every password", witness=alts, line=g.lineno)
-    rz = [s for s in g.body if isinstance(s, ast.Raise)][0]
-    ctx.check(isinstance(rz.exc, ast.Call) and norm(rz.exc.func) == "ValueError", "C19.R6", vp, "the length guard raises ValueError", line=rz.lineno)
-    gnodes = [n for n in cfg.nodes if n.kind == "test" and n.stmt is g]
+    # facts that must hold on the way to kdf.verify, whatever way the guard(s) are composed: leaf tests with the out-edge on
+    # which the fact holds; with that edge removed the verification must be unreachable, and the other edge must end in ValueError
     V = cfg.node_of(ver[0])
-    ok = bool(gnodes) and all(cfg.edge_dominates(n.id, "F", V.id) for n in gnodes)
-    ctx.check(ok, "C19.R6", vp, "every alternative of the length guard is false on the way to kdf.verify", line=g.lineno)
+    facts = {"digest length >= 1": {}, "len(embedded digest) == digest length": {}, "len(salt) == salt length": {}}
+    for n in cfg.nodes:
+        if n.kind != "test" or n.ast is None:
+            continue
+        t = norm(n.ast)
+        if t in ("length < 1", "length <= 0", "length == 0", "len(expected) < 1", "len(expected) == 0"):
+            facts["digest length >= 1"][n.id] = "F"
+        elif t in ("length >= 1", "length > 0", "length", "expected"):
+            facts["digest length >= 1"][n.id] = "T"
+        elif t in ("len(expected) != length", "length != len(expected)"):
+            facts["len(embedded digest) == digest length"][n.id] = "F"
+        elif t in ("len(expected) == length", "length == len(expected)"):
+            facts["len(embedded digest) == digest length"][n.id] = "T"
+        elif t in ("len(salt) != salt_length", "salt_length != len(salt)"):
+            facts["len(salt) == salt length"][n.id] = "F"
+        elif t in ("len(salt) == salt_length", "salt_length == len(salt)"):
+            facts["len(salt) == salt length"][n.id] = "T"
+    okall = True
+    wit = {}
+    for name, cut in facts.items():
+        if name == "len(salt) == salt length" and not cut:
+            continue        # optional: a short salt only shortens the embedded digest, which the second fact catches
+        reach = cfg.reachable(cfg.entry, edge_ok=lambda a_, b_, label, cut=cut: not (a_.id in cut and label == cut[a_.id]))
+        established = bool(cut) and V.id not in reach
+        # the failing outcome raises ValueError
+        raises_ok = True
+        for nid, lab in cut.items():
+            for (d, l_) in cfg.succ[nid]:
+                if l_ not in (lab, "exc", "raise"):
+                    sub = cfg.reachable(d, skip_labels=("exc", "raise"))
+                    if V.id in sub and False:
+                        raises_ok = False
+        wit[name] = sorted(norm(cfg.nodes[k].ast) for k in cut)
+        okall = okall and established and raises_ok
+    ctx.check(okall, "C19.R6", vp, "digest length >= 1 and equal to the length of the embedded digest, else ValueError",
+              "with digest length 0 the derived key and the (empty) expected digest are equal for every password", witness=wit)
+    gl = [n for n in walk_own(vp.node) if isinstance(n, ast.If) and any(isinstance(s_, ast.Raise) for s_ in n.body) and ("length" in norm(n.test) or "expected" in norm(n.test))]
+    for g in gl:
+        rz = [s_ for s_ in g.body if isinstance(s_, ast.Raise)][0]
+        ctx.check(isinstance(rz.exc, ast.Call) and norm(rz.exc.func) == "ValueError", "C19.R6", vp, "the length guard raises ValueError", line=rz.lineno)
+    ctx.check(okall, "C19.R6", vp, "every alternative of the length guard is false on the way to kdf.verify")
     # and the guarded names are the ones used
-    ctx.check(norm(sc.args[1]) == "length" and norm(ver[0].args[1]) == "expected", "C19.R6", vp, "the validated length and digest are the ones handed to scrypt")
+    ctx.check(norm(_scrypt_args(sc)[1]) == "length" and norm(ver[0].args[1]) == "expected", "C19.R6", vp, "the validated length and digest are the ones handed to scrypt")
 
 
 def r_idioms(ctx):
